@@ -359,19 +359,36 @@ impl Wal {
         let mut salt1 = Self::generate_salt();
         let mut salt2 = Self::generate_salt();
 
-        if segment_path.exists() {
-            let mut scan_segment = WalSegment::open(&segment_path, segment_num)?;
+        let mut segment = segment;
+        'scan: for seq in 1..=segment_num {
+            let path = dir.join(format!("wal.{:06}", seq));
+            if !path.exists() {
+                continue;
+            }
+            let mut scan_segment = WalSegment::open(&path, seq)?;
+            let file_len = scan_segment.offset();
             let mut offset = 0u64;
             let mut first_frame = true;
 
             while let Ok((header, _)) = scan_segment.read_frame() {
-                if first_frame {
+                if first_frame && seq == segment_num {
                     salt1 = header.salt1;
                     salt2 = header.salt2;
                     first_frame = false;
                 }
-                page_index.insert((header.file_id, header.page_no), (segment_num, offset));
+                page_index.insert((header.file_id, header.page_no), (seq, offset));
                 offset += (WAL_FRAME_HEADER_SIZE + PAGE_SIZE) as u64;
+            }
+            if seq == segment_num {
+                // append after the last valid frame, never at the start and never after a torn tail
+                let file = segment.writer.get_mut();
+                if offset < file_len {
+                    file.set_len(offset).wrap_err("failed to cut torn WAL tail")?;
+                }
+                file.seek(SeekFrom::Start(offset)).wrap_err("failed to seek to WAL end")?;
+                segment.offset = offset;
+            } else if offset < file_len {
+                break 'scan;
             }
         }
 
